@@ -55,7 +55,9 @@ Verdict(rec) ==
                                     /\ MatchJ(exp.obs, out.obs)
                                     /\ Has(rec.chk, "line") => out.line = exp.err.ln
           [] exp.how = "unspec" -> ObsPrefix(exp.obs, out.obs)
-  IN IF good THEN [id |-> rec.id, v |-> IF exp.how = "unspec" THEN "unspec" ELSE "ok", how |-> exp.how]
+  IN IF good /\ ~Has(rec.chk, "exp")
+     THEN [id |-> rec.id, v |-> IF exp.how = "unspec" THEN "unspec" ELSE "ok", how |-> exp.how]
+     ELSE IF good THEN [id |-> rec.id, v |-> IF exp.how = "unspec" THEN "unspec" ELSE "ok", how |-> exp.how, exp |-> exp]
      ELSE [id |-> rec.id, v |-> "bad", how |-> exp.how, exp |-> exp]
 
 VARIABLE pc
